@@ -110,6 +110,11 @@ func c14Job(id int, cs c14Case, tables []c14Table) (harness.Job, int) {
 	for _, k := range cs.keys {
 		ans = append(ans, Key(c14Keys[k].bytes))
 	}
+	if strings.Contains(cs.pre, "isearch") {
+		// an incremental search needs a history to search
+		cfg.NoHist = false
+		cfg.Hist = []harness.HistSpec{{Kind: "default", Lines: []string{"one", "two q"}}}
+	}
 	if p, ok := c14Preludes[cs.pre]; ok && p.prior {
 		return harness.Job{ID: id, Cfg: cfg, Calls: [][]harness.Answer{Keys(p.keys...), ans}, Want: harness.Want{Obs: 2, From: from}}, from
 	}
@@ -273,10 +278,20 @@ func c14Verdict(cs c14Case, tables []c14Table, t *harness.Trace) (fp, what strin
 			return kind, fmt.Sprintf("%s: after key #%d (%s) with the menu active the buffer is %q; original %q, cursor %d (word starts at %d)", d, i, keyName, o.Line, string(B), c, w0), true
 		}
 	}
-	if call.Outcome == "returned" && menuSeen {
-		// a menu key string never contains Enter: returning means an interrupt ended the call
-		last := c14Keys[cs.keys[len(cs.keys)-1]].name
-		_ = last
+	_ = menuSeen
+	if call.Outcome == "returned" && len(call.Waits) >= 2 {
+		// a menu key string never contains Enter: the call returned at the key answered at the last
+		// wait. "Interrupting an active completion menu only cancels the menu ... and the Readline
+		// call continues": an interrupt key delivered while the menu keymap is active must not end it
+		k := len(call.Waits) - 2
+		lw := call.Waits[len(call.Waits)-1].Obs
+		if k >= 0 && k < len(cs.keys) && lw != nil && lw.Local == "menu-select" {
+			// (the statement names Ctrl-C; C-g is not a menu key: the main keymap's abort runs after the
+			// candidate has been accepted, and returns the interrupt)
+			if kn := c14Keys[cs.keys[k]].name; kn == "C-c" {
+				return "interrupt-in-menu-ends-the-call/" + kn, fmt.Sprintf("%s: %s was delivered while the completion menu was active (buffer %q, cursor %d) and Readline returned (%q, %q) instead of only closing the menu", d, kn, lw.Line, lw.Pos, call.Line, call.Err), true
+			}
+		}
 	}
 	return "", "", nontrivial
 }
@@ -346,8 +361,11 @@ func runC14(c *Ctx) {
 	}
 	// the same completions when the Shell has inserted a candidate before (earlier on the line, or in
 	// an earlier call): TAB alone and TAB + one key
-	for _, pre := range c14PreludeNames {
+	for pi, pre := range c14PreludeNames {
 		for _, mode := range []string{"emacs", "vi-insert"} {
+			if quick && mode == "vi-insert" && pi >= 2 && pre != "interrupted-completion-previous-call" && pre != "aborted-isearch-previous-call" {
+				continue
+			}
 			for ti := range tables {
 				if !tables[ti].spec.ByWord {
 					continue
@@ -358,6 +376,11 @@ func runC14(c *Ctx) {
 						cases = append(cases, c14Case{buf: b, back: back, table: ti, mode: mode, pre: pre})
 						for k1 := range c14Keys {
 							cases = append(cases, c14Case{buf: b, back: back, table: ti, keys: []int{k1}, mode: mode, pre: pre})
+							// ... and the interrupt after it (C-c is key 11)
+							if k1 != 0 && k1 != 2 && k1 != 4 {
+								continue
+							}
+							cases = append(cases, c14Case{buf: b, back: back, table: ti, keys: []int{k1, 11}, mode: mode, pre: pre})
 						}
 					}
 				}
